@@ -33,9 +33,12 @@ def toPhrase (pf : PF) : Phrase := { text := pf.1, freq := pf.2 }
 /-- an enumerated entry as the record `dump` prints -/
 def ofEntry (e : Entry) : Cli.Rec := { phrase := e.2.text, freq := e.2.freq, syls := e.1 }
 
-/-- a record as the Rust types constrain it: non-zero `u16` syllables, a `String`, a `u32` -/
+/-- a record as the Rust types constrain it: `Syllable`s — non-zero `u16` codes that `Syllable::try_from` accepts
+    (`validCode`: the invariant of the type since the repair of C13's finding F47, required by C11's `ValidEntry`;
+    the compiler obtains its syllables from the spelling parser, which yields such codes only) —, a `String`,
+    a `u32` -/
 def ValidRec (r : Cli.Rec) : Prop :=
-  (∀ s ∈ r.syls, 0 < s ∧ s < 65536) ∧ (∀ c ∈ r.phrase, Der.IsScalar c) ∧ r.freq < 2 ^ 32
+  (∀ s ∈ r.syls, 0 < s ∧ s < 65536 ∧ validCode s = true) ∧ (∀ c ∈ r.phrase, Der.IsScalar c) ∧ r.freq < 2 ^ 32
 
 theorem validEntry_toEntry {r : Cli.Rec} (h : ValidRec r) : TrieCodec.ValidEntry (toEntry r) :=
   ⟨h.1, h.2.1, h.2.2, fun _ e => by cases e⟩
